@@ -11,7 +11,7 @@ RULE = ("random reactions of every built-in type (mass action orders 0..4 with r
         "distinct by (case digest); class cells = type x mode x route")
 ASSUMPTIONS = ["reference closed forms in vlib/ref.py", "stochastic falling factorial asserted on integer states when a reactant repeats"]
 RUN_OPTS = {"batch_size": 25, "timeout_per_case": 20.0}
-MINIMA = {"*": {"evaluations": 3000, "nontrivial_evaluations": 1000, "min_cell": 20}}
+MINIMA = {"*": {"evaluations": 3000, "nontrivial_evaluations": 1000, "min_cell": 20, "passes_after_history": 50}}
 
 TYPES = ["massaction0", "massaction1", "massaction2", "massaction3", "massaction4"] + list(gen.HILL)
 
@@ -64,7 +64,10 @@ def gen_case(rnd, force_all=False):
                 x[s] = float("%.6g" % rnd.uniform(0, 50)) if rnd.random() < 0.9 else 0.0
         pts.append({"x": x, "V": gen.nice(rnd, 0.05, 50), "t": float("%.3g" % rnd.uniform(0, 20)), "kind": kind})
     return {"species": species, "x0": {s: 1 for s in species}, "params": params, "reactions": rxns, "rules": [],
-            "points": pts, "route": rnd.choice(["ctor", "incremental", "icd"])}
+            "points": pts, "route": rnd.choice(["ctor", "incremental", "icd"]),
+            # operations on the SAME model between two evaluation passes; none of them may change what a rate law means
+            "ops": [rnd.choice(["reinit", "reinit", "new_values", "other_model", "simulate", "interfaces_first"]) for _ in range(rnd.choice([0, 0, 1, 2, 3]))],
+            "newvals": {k: gen.nice(rnd, 1e-3, 1e3) for k in params}}
 
 
 def generate(tier, seed):
@@ -95,14 +98,47 @@ def run_case(case):
     cells = Counter()
     viol = util.ViolList()
     M = specmod.build_model(case, case["route"])
+    S, Sd = ref.stoich(case)
+    state = {"pdict": dict(case["params"]), "nontrivial": False}
+    evaluate_pass(case, M, state, C, cells, viol, S, "")
+    if case.get("ops"):
+        for op in case["ops"]:
+            if op == "reinit":
+                M.py_initialize()
+            elif op == "new_values":
+                # Hill exponents / constants keep their role-specific ranges: only rate constants k_* are rescaled
+                ch = {k: v for k, v in case["newvals"].items() if k.startswith("k_")}
+                if ch:
+                    M.set_params(ch)
+                    state["pdict"].update(ch)
+            elif op == "other_model":
+                other = dict(case)
+                other["species"] = list(reversed(case["species"]))
+                specmod.build_model(other, "ctor")
+            elif op == "simulate":
+                from bioscrape.simulator import py_simulate_model
+                try:
+                    py_simulate_model(np.linspace(0, 0.01, 3), Model=M, stochastic=False)
+                except Exception:
+                    pass
+            elif op == "interfaces_first":
+                ModelCSimInterface(M)
+                SafeModelCSimInterface(M)
+        C["passes_after_history"] += 1
+        evaluate_pass(case, M, state, C, cells, viol, S, " after " + "+".join(case["ops"]))
+    return {"viol": viol, "counters": dict(C), "nontrivial": state["nontrivial"], "cells": {"|".join(k): v for k, v in cells.items()}}
+
+
+def evaluate_pass(case, M, state, C, cells, viol, S, hist):
+    import numpy as np
+    import bioscrape.types as bt
+    from bioscrape.simulator import ModelCSimInterface, SafeModelCSimInterface
     plain = ModelCSimInterface(M)
     safe = SafeModelCSimInterface(M)
     props = M.get_propensities()
     pv = specmod.param_vec(M)
-    pdict = dict(case["params"])
-    S, Sd = ref.stoich(case)
+    pdict = state["pdict"]
     sp_list = M.get_species_list()
-    nontrivial = False
     # directly constructed + initialised propensity objects (named parameters only)
     direct = {}
     for i, r in enumerate(case["reactions"]):
@@ -154,7 +190,7 @@ def run_case(case):
                     continue
                 exp = ref.rate(r, pt["x"], pdict, V, mode, t)
                 if exp > 0 and not close(exp, ref.pval(r["fields"]["k"], pdict)):
-                    nontrivial = True
+                    state["nontrivial"] = True
                     C["nontrivial_evaluations"] += 1
                 for route in ["object", "plain", "safe"] + (["direct"] if i in direct else []):
                     if route in ("object", "direct"):
@@ -174,10 +210,9 @@ def run_case(case):
                         if route == "safe" and len(need) == len(sp_list) and len(sp_list) > 0:
                             key += ":consumes-all-species"
                         if len(viol) < 6:
-                            viol.append({"key": key, "msg": "%s reaction #%d %s mode=%s route=%s state=%s V=%s: got %r expected %r" % (
-                                r["type"], i, r["fields"], mode, route, pt["x"], V, float(g), e)})
+                            viol.append({"key": key, "msg": "%s reaction #%d %s mode=%s route=%s state=%s V=%s%s: got %r expected %r" % (
+                                r["type"], i, r["fields"], mode, route, pt["x"], V, hist, float(g), e)})
                         C["mismatches"] += 1
-    return {"viol": viol, "counters": dict(C), "nontrivial": nontrivial, "cells": {"|".join(k): v for k, v in cells.items()}}
 
 
 def _isnum(v):
